@@ -37,7 +37,7 @@ class CacheLock:
         last_timestamp = _read_last_cached_time(self.cache_folder)
         self.current_timestamp = time.time()
         time_since_update = self.current_timestamp - last_timestamp
-        if time_since_update < self.time_threshold:
+        if self.write_time and time_since_update < self.time_threshold:
             raise CacheException(f"Last updated {time_since_update} seconds ago.  Threshold is {self.time_threshold}")
 
         try:
